@@ -292,5 +292,93 @@ func corpus() []corpusEntry {
 		sc.Requests = []sim.Request{sim.GetReq("Handler", L+"/notes/1"), sim.GetReq("Handler", L+"/notes/2"), sim.GetReq("Handler", L+"/notes/404")}
 		return sc
 	})
+	// ---------- reach extensions (paths the first corpus never entered) ----------
+	// every default callback replaced by an application function of the same
+	// signature: the default effect must be absent, everything else unchanged
+	base := append([]corpusEntry{}, c...)
+	fedType := map[string]string{"inbox.Update": "Update", "inbox.Delete": "Delete", "inbox.Follow.onfollow=1": "Follow",
+		"inbox.Accept.follow": "Accept", "inbox.Reject": "Reject", "inbox.Add": "Add", "inbox.Remove": "Remove",
+		"inbox.Like": "Like", "inbox.Announce": "Announce", "inbox.Undo": "Undo", "inbox.Block": "Block"}
+	socType := map[string]string{"outbox.Update": "Update", "outbox.Delete": "Delete", "outbox.Follow": "Follow",
+		"outbox.Add": "Add", "outbox.Remove": "Remove", "outbox.Like": "Like", "outbox.Undo": "Undo", "outbox.Block": "Block"}
+	for _, e := range base {
+		e := e
+		if typ, ok := fedType[e.Name]; ok {
+			add(e.Name+".other-override", func(g *prng.R) *sim.Scenario {
+				sc := e.Build(g)
+				sc.Cfg.FedOther = []string{"ActivityStreams" + typ}
+				return sc
+			})
+		}
+		if typ, ok := socType[e.Name]; ok {
+			add(e.Name+".other-override", func(g *prng.R) *sim.Scenario {
+				sc := e.Build(g)
+				sc.Cfg.SocOther = []string{"ActivityStreams" + typ}
+				return sc
+			})
+		}
+	}
+	// a client that goes away while the body is being read
+	for _, n := range []int{0, 1, 40} {
+		n := n
+		add(fmt.Sprintf("inbox.body-read-fails-after-%d", n), func(g *prng.R) *sim.Scenario {
+			sc := inboxScenario(M{"type": "Like", "id": R1 + "/act/20", "actor": carol(), "object": L + "/notes/1"}, func(sc *sim.Scenario) { ownedNote(sc, 1, nil) })
+			sc.Requests[0].BodyFailAfter = &n
+			return sc
+		})
+		add(fmt.Sprintf("outbox.body-read-fails-after-%d", n), func(g *prng.R) *sim.Scenario {
+			sc := outboxScenario(note("", M{"to": carol()}), nil)
+			sc.Requests[0].BodyFailAfter = &n
+			return sc
+		})
+	}
+	// a ResponseWriter whose Write fails or is short
+	for _, wf := range []string{"error", "short"} {
+		wf := wf
+		add("get.write-"+wf, func(g *prng.R) *sim.Scenario {
+			sc := baseScenario()
+			ownedNote(sc, 1, nil)
+			sc.InboxPage = M{"@context": AS, "type": "OrderedCollectionPage", "id": aliceIn(), "orderedItems": A{R1 + "/act/1"}}
+			sc.OutboxPage = M{"@context": AS, "type": "OrderedCollectionPage", "id": aliceOut(), "orderedItems": A{L + "/act/1"}}
+			sc.Requests = []sim.Request{sim.GetReq("GetInbox", aliceIn()), sim.GetReq("GetOutbox", aliceOut()), sim.GetReq("Handler", L+"/notes/1")}
+			for i := range sc.Requests {
+				sc.Requests[i].WriteFail = wf
+			}
+			return sc
+		})
+	}
+	// Update naming its object only by IRI (the default effect needs the whole object)
+	add("inbox.Update.iri-object", func(g *prng.R) *sim.Scenario {
+		return inboxScenario(M{"type": "Update", "id": R1 + "/act/21", "actor": carol(), "object": A{R1 + "/notes/1"}}, func(sc *sim.Scenario) {
+			sc.Store[R1+"/notes/1"] = withCtx(note(R1+"/notes/1", nil))
+		})
+	})
+	add("outbox.Update.iri-object", func(g *prng.R) *sim.Scenario {
+		return outboxScenario(M{"type": "Update", "actor": alice(), "to": carol(), "object": A{L + "/notes/1"}}, func(sc *sim.Scenario) { ownedNote(sc, 1, nil) })
+	})
+	// an OnFollow value outside the documented three
+	add("inbox.Follow.onfollow=7", func(g *prng.R) *sim.Scenario {
+		return inboxScenario(M{"type": "Follow", "id": R1 + "/act/22", "actor": carol(), "object": alice()}, func(sc *sim.Scenario) { sc.Cfg.OnFollow = 7 })
+	})
+	// addressing values without an id in the forwarding scan
+	add("inbox.forwarding.audience-without-id", func(g *prng.R) *sim.Scenario {
+		return inboxScenario(M{"type": "Create", "id": R1 + "/act/23", "actor": carol(),
+			"object":   note(R1+"/notes/r9", M{"inReplyTo": L + "/notes/1"}),
+			"to":       A{alice() + "/followers"},
+			"audience": A{M{"type": "Group", "name": "no id here"}}}, func(sc *sim.Scenario) {
+			ownedNote(sc, 1, nil)
+			sc.Store[alice()+"/followers"] = M{"@context": AS, "type": "Collection", "id": alice() + "/followers", "items": A{dave()}}
+		})
+	})
+	// likes / shares present but empty, in both collection flavours
+	for _, typ := range []string{"Like", "Announce"} {
+		typ := typ
+		add("inbox."+typ+".empty-collections", func(g *prng.R) *sim.Scenario {
+			return inboxScenario(M{"type": typ, "id": R1 + "/act/24", "actor": carol(), "object": A{L + "/notes/1", L + "/notes/2"}}, func(sc *sim.Scenario) {
+				ownedNote(sc, 1, M{"likes": M{"type": "OrderedCollection", "id": L + "/notes/1/likes"}, "shares": M{"type": "OrderedCollection", "id": L + "/notes/1/shares"}})
+				ownedNote(sc, 2, M{"likes": M{"type": "Collection", "id": L + "/notes/2/likes"}, "shares": M{"type": "Collection", "id": L + "/notes/2/shares"}})
+			})
+		})
+	}
 	return c
 }
